@@ -30,7 +30,7 @@ without reference to what the generators draw). Wave 4 ({waves.get('4',0)} chang
 purpose and is marked as such: those agents were additionally told, in prose, which
 configurations, shapes, sizes and fault kinds the generators draw and were asked for changes such
 a checker would still miss - they are adversarial to the machinery, not independent of it. Wave 5
-({waves.get('5',0)} changes) and waves 6 to 14 ({waves.get('6',0)}+{waves.get('7',0)}+{waves.get('8',0)}+{waves.get('9',0)}+{waves.get('10',0)}+{waves.get('11',0)}+{waves.get('12',0)}+{waves.get('13',0)}+{waves.get('14',0)} changes) went back to the property text alone (plus the list of earlier
+({waves.get('5',0)} changes) and waves 6 to 15 ({waves.get('6',0)}+{waves.get('7',0)}+{waves.get('8',0)}+{waves.get('9',0)}+{waves.get('10',0)}+{waves.get('11',0)}+{waves.get('12',0)}+{waves.get('13',0)}+{waves.get('14',0)}+{waves.get('15',0)} changes) went back to the property text alone (plus the list of earlier
 changes to avoid).
 "yes" = caught by the quick tier of the machinery as it was when the change arrived; "after
 strengthening" = first missed, then caught after the generator or oracle was extended (the last
@@ -82,7 +82,11 @@ two scheduler/seam gaps (atomic operations were no scheduling points; the produc
 before the pipeline was built) and one blind spot of the harness itself (it asked every instance
 for its IdlePeriod() before the first Compute, hiding getters that write; nothing ran next to a
 pipeline, hiding package-level state), plus history classes (streams with values queued before
-the call, output directories of earlier runs, CSV-backed backtests over more than 256 rows).
+the call, output directories of earlier runs, CSV-backed backtests over more than 256 rows); wave
+15 one consumer shape nobody had (all streams of concurrent calls read in step by one reader), one
+entry point C03 never drove (ComputeWithOutcome), and size/value classes (inputs of 1000-2400
+values, periods above 256, fan-outs up to 25, dates after 2262, look-backs of centuries,
+strings-only rows in C19, symlinked files in C13).
 
 | seeded change | wave | what it does | needs | caught at once? | check and verdict |
 |---|---|---|---|---|---|
